@@ -1927,10 +1927,12 @@ fn gen_install(rng: &mut Rng, info: &FontInfo, prop: &str) -> Option<(FontInfo, 
         });
     }
     if rng.pct(p_names / 2 + 1) && info.has("post") && info.has("glyf") {
-        let v25 = info.num_glyphs <= 385 && rng.pct(70);
+        let v20 = rng.pct(if info.axes > 0 { 60 } else { 25 });
+        let v25 = !v20 && info.num_glyphs <= 385 && rng.pct(70);
         surgeries.push(Surgery::PostFormat {
             v25,
             variant: rng.below(1 << 16),
+            v20,
         });
     }
     if rng.pct(p_names) && info.has("name") {
